@@ -14,42 +14,46 @@ from (call number, entries offered) to `(sent, errno)` — that respects the sen
 -/
 import Nebula.Lemmas.WritebatchRun
 import Nebula.Lemmas.WritebatchProgress
+import Nebula.Lemmas.WritebatchDisable
+import Nebula.Lemmas.Sendmmsg
+import Nebula.Lemmas.WritebatchCover
+import Nebula.Lemmas.WritebatchBridge
 
 namespace Nebula.Props.C26
-open Nebula.Writebatch Nebula.Lemmas.Writebatch List
+open Nebula.Writebatch Nebula.Lemmas.Writebatch Nebula.Lemmas.Sendmmsg List
 
 variable {δ : Type} [DecidableEq δ]
 
 /-- Master ordering fact: the packet indices the kernel accepted, listed in the order it accepted them
 (across all `sendFn` calls, chunks and the GSO-disable replay), are strictly increasing. -/
-theorem sent_increasing (c : Cfg δ) (kern : Nat → Nat → Outcome) (hk : KernOK kern) (pk : List (Pkt δ)) (gso : Bool) :
-    (sentIdxs (writeBatch c kern pk gso).calls).Pairwise (· < ·) := by
-  have h := run_spec c kern hk pk gso 0 0 (Nat.zero_le _)
+theorem sent_increasing (c : Cfg δ) (kern : Nat → Nat → Outcome) (hk : KernOK kern) (pk : List (Pkt δ)) (gso : Bool) (ctl : Ctl) :
+    (sentIdxs (writeBatch c kern pk gso ctl).calls).Pairwise (· < ·) := by
+  have h := run_spec c kern hk pk gso 0 0 ctl (Nat.zero_le _)
   exact idxs_sorted _ h.1
 
 /-- every datagram is handed to the kernel successfully at most once. -/
-theorem at_most_once (c : Cfg δ) (kern : Nat → Nat → Outcome) (hk : KernOK kern) (pk : List (Pkt δ)) (gso : Bool) :
-    (sentIdxs (writeBatch c kern pk gso).calls).Nodup :=
-  (sent_increasing c kern hk pk gso).imp (fun h => Nat.ne_of_lt h)
+theorem at_most_once (c : Cfg δ) (kern : Nat → Nat → Outcome) (hk : KernOK kern) (pk : List (Pkt δ)) (gso : Bool) (ctl : Ctl) :
+    (sentIdxs (writeBatch c kern pk gso ctl).calls).Nodup :=
+  (sent_increasing c kern hk pk gso ctl).imp (fun h => Nat.ne_of_lt h)
 
 /-- the reported count equals the number of datagrams the kernel accepted. -/
-theorem count_exact (c : Cfg δ) (kern : Nat → Nat → Outcome) (hk : KernOK kern) (pk : List (Pkt δ)) (gso : Bool) :
-    (writeBatch c kern pk gso).written = (sentIdxs (writeBatch c kern pk gso).calls).length := by
-  have h := run_spec c kern hk pk gso 0 0 (Nat.zero_le _)
-  show (run c kern pk gso 0 0).written = _
+theorem count_exact (c : Cfg δ) (kern : Nat → Nat → Outcome) (hk : KernOK kern) (pk : List (Pkt δ)) (gso : Bool) (ctl : Ctl) :
+    (writeBatch c kern pk gso ctl).written = (sentIdxs (writeBatch c kern pk gso ctl).calls).length := by
+  have h := run_spec c kern hk pk gso 0 0 ctl (Nat.zero_le _)
+  show (run c kern pk gso 0 0 ctl).written = _
   rw [h.2.2.1]; exact (idxs_length _).symm
 
 /-- same-destination datagrams keep their order: restricted to the datagrams of any one destination (any
 predicate on indices, in fact) the accepted sequence is still in input order. -/
-theorem order (c : Cfg δ) (kern : Nat → Nat → Outcome) (hk : KernOK kern) (pk : List (Pkt δ)) (gso : Bool)
+theorem order (c : Cfg δ) (kern : Nat → Nat → Outcome) (hk : KernOK kern) (pk : List (Pkt δ)) (gso : Bool) (ctl : Ctl)
     (d : δ) :
-    ((sentIdxs (writeBatch c kern pk gso).calls).filter (fun i => decide ((pk[i]?.map (·.dst)) = some d))).Pairwise (· < ·) :=
-  (sent_increasing c kern hk pk gso).sublist List.filter_sublist
+    ((sentIdxs (writeBatch c kern pk gso ctl).calls).filter (fun i => decide ((pk[i]?.map (·.dst)) = some d))).Pairwise (· < ·) :=
+  (sent_increasing c kern hk pk gso ctl).sublist List.filter_sublist
 
 /-- only existing datagrams are sent. -/
-theorem sent_in_range (c : Cfg δ) (kern : Nat → Nat → Outcome) (hk : KernOK kern) (pk : List (Pkt δ)) (gso : Bool)
-    (i : Nat) (hi : i ∈ sentIdxs (writeBatch c kern pk gso).calls) : i < pk.length := by
-  have h := run_spec c kern hk pk gso 0 0 (Nat.zero_le _)
+theorem sent_in_range (c : Cfg δ) (kern : Nat → Nat → Outcome) (hk : KernOK kern) (pk : List (Pkt δ)) (gso : Bool) (ctl : Ctl)
+    (i : Nat) (hi : i ∈ sentIdxs (writeBatch c kern pk gso ctl).calls) : i < pk.length := by
+  have h := run_spec c kern hk pk gso 0 0 ctl (Nat.zero_le _)
   simp only [sentIdxs, List.mem_flatMap] at hi
   obtain ⟨e, he, hie⟩ := hi
   have := (h.2.1 e he).2
@@ -60,41 +64,125 @@ theorem sent_in_range (c : Cfg δ) (kern : Nat → Nat → Outcome) (hk : KernOK
 datagrams) has one destination, equal-sized segments except a shorter non-empty last one, at most
 `maxGSOSegments` segments and at most `maxGSOBytes` bytes; its destination is one the socket can address;
 and no `sendFn` call is empty or exceeds the scratch. -/
-theorem run_shape (c : Cfg δ) (kern : Nat → Nat → Outcome) (hk : KernOK kern) (pk : List (Pkt δ)) (gso : Bool)
-    (call : Call) (hc : call ∈ (writeBatch c kern pk gso).calls) :
+theorem run_shape (c : Cfg δ) (kern : Nat → Nat → Outcome) (hk : KernOK kern) (pk : List (Pkt δ)) (gso : Bool) (ctl : Ctl)
+    (call : Call) (hc : call ∈ (writeBatch c kern pk gso ctl).calls) :
     call.ents ≠ [] ∧ call.done + call.ents.length ≤ c.n ∧
     ∀ e ∈ call.ents, RunShape c.maxSeg pk e ∧ (∀ p, pk[e.start]? = some p → c.routable p.dst = true) := by
-  have h := run_spec c kern hk pk gso 0 0 (Nat.zero_le _)
+  have h := run_spec c kern hk pk gso 0 0 ctl (Nat.zero_le _)
   obtain ⟨h1, h2, h3⟩ := h.2.2.2.1 call hc
   exact ⟨h1, h2, fun e he => ⟨(h3 e he).1, (h3 e he).2.1⟩⟩
 
 /-- with GSO off nothing is ever offloaded: every entry is a single datagram. -/
-theorem gso_off_single (c : Cfg δ) (kern : Nat → Nat → Outcome) (hk : KernOK kern) (pk : List (Pkt δ))
-    (call : Call) (hc : call ∈ (writeBatch c kern pk false).calls) : ∀ e ∈ call.ents, e.cnt = 1 := by
-  have h := run_spec c kern hk pk false 0 0 (Nat.zero_le _)
+theorem gso_off_single (c : Cfg δ) (kern : Nat → Nat → Outcome) (hk : KernOK kern) (pk : List (Pkt δ)) (ctl : Ctl)
+    (call : Call) (hc : call ∈ (writeBatch c kern pk false ctl).calls) : ∀ e ∈ call.ents, e.cnt = 1 := by
+  have h := run_spec c kern hk pk false 0 0 ctl (Nat.zero_le _)
   exact fun e he => ((h.2.2.2.1 call hc).2.2 e he).2.2 rfl
 
 /-- a kernel that respects the contract never drives the code into counting entries it was not offered. -/
-theorem no_overrun (c : Cfg δ) (kern : Nat → Nat → Outcome) (hk : KernOK kern) (pk : List (Pkt δ)) (gso : Bool) :
-    (writeBatch c kern pk gso).overrun = false :=
-  (run_spec c kern hk pk gso 0 0 (Nat.zero_le _)).2.2.2.2
+theorem no_overrun (c : Cfg δ) (kern : Nat → Nat → Outcome) (hk : KernOK kern) (pk : List (Pkt δ)) (gso : Bool) (ctl : Ctl) :
+    (writeBatch c kern pk gso ctl).overrun = false :=
+  (run_spec c kern hk pk gso 0 0 ctl (Nat.zero_le _)).2.2.2.2
 
 /-- The error "sendmmsg made no progress" is returned exactly when a `sendFn` call sent nothing and reported
 no errno, that call is the last one, and no earlier call was of that kind (for every kernel, contract or not). -/
-theorem no_progress_error (c : Cfg δ) (kern : Nat → Nat → Outcome) (pk : List (Pkt δ)) (gso : Bool) :
-    let r := writeBatch c kern pk gso
+theorem no_progress_error (c : Cfg δ) (kern : Nat → Nat → Outcome) (pk : List (Pkt δ)) (gso : Bool) (ctl : Ctl) :
+    let r := writeBatch c kern pk gso ctl
     (r.err = true → ∃ init last, r.calls = init ++ [last] ∧ Stuck last ∧ ∀ x ∈ init, ¬ Stuck x) ∧
     (r.err = false → ∀ x ∈ r.calls, ¬ Stuck x) :=
-  run_stuck c kern pk gso 0 0
+  run_stuck c kern pk gso 0 0 ctl
 
 /-- Progress / termination, made explicit: whatever the kernel answers (contract or not), `WriteBatch`
 returns after at most `2·len(bufs) + 1` `sendFn` calls — `len(bufs)` without GSO.  (That the model is a
 total function is itself the termination proof: measure = (GSO flag, remaining packets), entries left.) -/
-theorem terminates (c : Cfg δ) (kern : Nat → Nat → Outcome) (pk : List (Pkt δ)) (gso : Bool) :
-    (writeBatch c kern pk gso).calls.length ≤ (if gso then 2 * pk.length + 1 else pk.length) := by
-  have h := run_calls c kern pk gso 0 0 (Nat.zero_le _)
+theorem terminates (c : Cfg δ) (kern : Nat → Nat → Outcome) (pk : List (Pkt δ)) (gso : Bool) (ctl : Ctl) :
+    (writeBatch c kern pk gso ctl).calls.length ≤ (if gso then 2 * pk.length + 1 else pk.length) := by
+  have h := run_calls c kern pk gso 0 0 ctl (Nat.zero_le _)
   simp only [writeBatch]
   split <;> simp_all <;> omega
+
+/-- Control side of the entries (reviewer seed C26-2).  The mmsghdr slots are reused from chunk to chunk and
+from batch to batch, and whatever earlier batches left in them (`ctl`, arbitrary) is still there when
+`WriteBatch` starts.  Nevertheless every entry the kernel is ever offered carries exactly the control data
+its run needs: the UDP_SEGMENT cmsg with the run's segment size when it holds ≥ 2 datagrams, and *no*
+control data when it holds one — for every batch, kernel, scratch size and stale slot state. -/
+theorem cmsg_matches_entry (c : Cfg δ) (kern : Nat → Nat → Outcome) (pk : List (Pkt δ)) (gso : Bool) (ctl : Ctl)
+    (hc : ctl.length = c.n) (call : Call) (hcall : call ∈ (writeBatch c kern pk gso ctl).calls) :
+    call.ctl = call.ents.map Entry.wantCtl ∧ call.ctl.length = call.ents.length := by
+  have h := (run_ctl c kern pk gso 0 0 ctl (Nat.zero_le _) hc).2 call hcall
+  exact ⟨h, by rw [h]; simp⟩
+
+/-- the slot state handed on to the next `WriteBatch` call has the same shape. -/
+theorem ctl_length_kept (c : Cfg δ) (kern : Nat → Nat → Outcome) (pk : List (Pkt δ)) (gso : Bool) (ctl : Ctl)
+    (hc : ctl.length = c.n) : (writeBatch c kern pk gso ctl).ctl.length = c.n :=
+  (run_ctl c kern pk gso 0 0 ctl (Nat.zero_le _) hc).1
+
+/-- After the call on which GSO is disabled (nothing sent, EIO, first remaining entry an offloaded run) no
+entry is offloaded any more and none carries a UDP_SEGMENT cmsg — in the rest of this `WriteBatch` call … -/
+theorem no_cmsg_after_disable (c : Cfg δ) (kern : Nat → Nat → Outcome) (pk : List (Pkt δ)) (gso : Bool) (ctl : Ctl)
+    (hc : ctl.length = c.n) (a b : List Call) (x : Call)
+    (hs : (writeBatch c kern pk gso ctl).calls = a ++ x :: b) (hx : IsDisable x) :
+    ∀ y ∈ b, (∀ e ∈ y.ents, e.cnt = 1) ∧ ∀ o ∈ y.ctl, o = none := by
+  intro y hy
+  have h1 := run_disable c kern pk gso 0 0 ctl (Nat.zero_le _) a x b hs hx y hy
+  refine ⟨h1, ?_⟩
+  have hm : y ∈ (writeBatch c kern pk gso ctl).calls := by rw [hs]; simp [hy]
+  rw [(cmsg_matches_entry c kern pk gso ctl hc y hm).1]
+  intro o ho
+  obtain ⟨e, he, rfl⟩ := List.mem_map.mp ho
+  have := h1 e he
+  simp [Entry.wantCtl, this]
+
+/-- … and in every later call on that writer (GSO flag off): single datagrams, no control data, whatever the
+slots held before. -/
+theorem gso_off_no_cmsg (c : Cfg δ) (kern : Nat → Nat → Outcome) (pk : List (Pkt δ)) (ctl : Ctl)
+    (hc : ctl.length = c.n) (call : Call) (hcall : call ∈ (writeBatch c kern pk false ctl).calls) :
+    ∀ o ∈ call.ctl, o = none := by
+  rw [(cmsg_matches_entry c kern pk false ctl hc call hcall).1]
+  intro o ho
+  obtain ⟨e, he, rfl⟩ := List.mem_map.mp ho
+  have := run_off_single c kern pk false 0 0 ctl (Nat.zero_le _) rfl call hcall e he
+  simp [Entry.wantCtl, this]
+
+/-- the flag is off after a disabling call (so `gso_off_no_cmsg` applies to the next batch). -/
+theorem disable_turns_flag_off (c : Cfg δ) (kern : Nat → Nat → Outcome) (pk : List (Pkt δ)) (gso : Bool) (ctl : Ctl)
+    (x : Call) (hm : x ∈ (writeBatch c kern pk gso ctl).calls) (hx : IsDisable x) :
+    (writeBatch c kern pk gso ctl).gso = false :=
+  run_disable_flag c kern pk gso 0 0 ctl (Nat.zero_le _) x hm hx
+
+/-- No silent loss.  With a non-empty scratch (`MaxWriteBatch = 128` in production) and a kernel that respects
+the contract: every datagram whose destination the socket can address is accounted for — it is in an entry
+the kernel accepted (`sentIdxs`), or it is in the first entry of a `sendFn` call that sent nothing and
+reported an errno (a per-entry rejection, which the code logs and skips; for the GSO-disabling EIO the run is
+offered again as single datagrams and accounted for once more).  If `WriteBatch` returns the no-progress error,
+this holds for every datagram before the first entry of the call that made no progress. -/
+theorem no_silent_loss (c : Cfg δ) (kern : Nat → Nat → Outcome) (hk : KernOK kern) (hn : 0 < c.n)
+    (pk : List (Pkt δ)) (gso : Bool) (ctl : Ctl) :
+    let r := writeBatch c kern pk gso ctl
+    (r.err = false → ∀ j (hj : j < pk.length), c.routable pk[j].dst = true → CovI r.calls j) ∧
+    (r.err = true → ∃ init last e, r.calls = init ++ [last] ∧ last.ents.head? = some e ∧
+      ∀ j (hj : j < pk.length), j < e.start → c.routable pk[j].dst = true → CovI r.calls j) := by
+  have h := run_cover c kern hk hn pk gso 0 0 ctl (Nat.zero_le _)
+  refine ⟨fun he j hj hr => h.1 he j hj (Nat.zero_le _) hr, fun he => ?_⟩
+  obtain ⟨init, last, e, h1, h2, h3⟩ := h.2 he
+  exact ⟨init, last, e, h1, h2, fun j hj hje hr => h3 j hj (Nat.zero_le _) hje hr⟩
+
+-- the hypothesis `0 < c.n` is needed: a writer without scratch drops the whole batch and reports success
+example :
+    let r := writeBatch (δ := Nat) { n := 0, maxSeg := 2, routable := fun _ => true } (scriptKern []) [⟨5, 0⟩] true []
+    r.written = 0 ∧ r.err = false ∧ r.calls.length = 0 := by
+  decide +kernel
+
+/-- The run-time oracle is a proved consequence of the model: for every batch, every kernel under the
+sendmmsg contract, every scratch size, GSO on or off and every stale slot state, the specification's checker
+`Spec.Writebatch.check` (the function the correspondence run applies to the implementation's answers: sent
+within offered, run shape incl. control data, at most once, exact count, per-destination order, no-progress
+rule) accepts the model's trace as the harness would observe it (`toSTrace`: indices of zero-length packets
+hidden, control data as left in the slots, destinations numbered by any `dnum` consistent with routability). -/
+theorem model_satisfies_oracle (c : Cfg δ) (pk : List (Pkt δ)) (dnum : δ → Nat) (rnum : Nat → Bool)
+    (kern : Nat → Nat → Outcome) (hk : KernOK kern) (gso : Bool) (ctl : Ctl)
+    (hc : ctl.length = c.n) (hr : ∀ p ∈ pk, rnum (dnum p.dst) = c.routable p.dst) :
+    Spec.Writebatch.check (toSInput c pk dnum rnum) (toSTrace pk dnum (writeBatch c kern pk gso ctl)) = none :=
+  model_satisfies_oracle_lemma c pk dnum rnum kern hk gso ctl hc hr
 
 /-- every scripted kernel (any list of outcomes, any `sent` values) satisfies the contract — the
 hypothesis `KernOK` of the theorems above is satisfiable, by every script. -/
@@ -108,7 +196,7 @@ theorem script_kernel_ok (script : List Outcome) : KernOK (scriptKern script) :=
 -- a stuck kernel: the first call sends nothing and reports nothing
 example :
     let r := writeBatch (δ := Nat) { n := 2, maxSeg := 2, routable := fun _ => true }
-      (scriptKern [⟨0, .none⟩]) [⟨5, 0⟩] true
+      (scriptKern [⟨0, .none⟩]) [⟨5, 0⟩] true [none, none]
     r.err = true ∧ r.written = 0 ∧ r.calls.length = 1 := by
   decide +kernel
 
@@ -116,8 +204,88 @@ example :
 -- the kernel rejects the offloaded run with EIO, so GSO is disabled and the run replayed as single datagrams
 example :
     let r := writeBatch (δ := Nat) { n := 2, maxSeg := 2, routable := fun _ => true }
-      (scriptKern [⟨0, .eio⟩]) [⟨5, 0⟩, ⟨5, 0⟩, ⟨5, 0⟩] true
+      (scriptKern [⟨0, .eio⟩]) [⟨5, 0⟩, ⟨5, 0⟩, ⟨5, 0⟩] true [none, none]
     sentIdxs r.calls = [0, 1, 2] ∧ r.written = 3 ∧ r.gso = false ∧ r.calls.length = 3 := by
   decide +kernel
+
+/-! ## The sendmmsg wrapper (`w.sendFn` in production): retry loop around the raw syscall -/
+
+
+/-- What `batchWriter.sendmmsg` returns, for every script of raw syscall results: the first result that is
+neither EINTR nor one of the first three ENOBUFS.  It never returns EINTR, it swallows at most
+`enobufsRetries = 3` ENOBUFS and returns ENOBUFS only as the fourth one, every other errno — EAGAIN
+included — is returned at once, and the number of syscalls is the length of the swallowed prefix plus one. -/
+theorem sendmmsg_result (script : List Sendmmsg.Sys) (sent : Int) (err : Sendmmsg.Errno) (n : Nat)
+    (h : Sendmmsg.sendmmsg script = .ret sent err n) :
+    err ≠ .eintr ∧
+    ∃ pre o rest, script = pre ++ o :: rest ∧ o.r1 = sent ∧ o.errno = err ∧ n = pre.length + 1 ∧
+      (∀ x ∈ pre, x.errno = .eintr ∨ x.errno = .enobufs) ∧ cnt .enobufs pre ≤ 3 ∧
+      (err = .enobufs → cnt .enobufs pre = 3) := by
+  have := loop_spec script 0 0 (by decide)
+  rw [show Sendmmsg.loop script 0 0 = Sendmmsg.sendmmsg script from rfl, h] at this
+  simpa [Sendmmsg.enobufsRetries] using this
+
+theorem length_two_classes (l : List Sendmmsg.Sys) (h : ∀ x ∈ l, x.errno = .eintr ∨ x.errno = .enobufs) :
+    l.length = cnt .eintr l + cnt .enobufs l := by
+  induction l with
+  | nil => simp [cnt]
+  | cons x xs ih =>
+    have := ih (fun y hy => h y (List.mem_cons_of_mem _ hy))
+    rcases h x List.mem_cons_self with hx | hx <;>
+      simp only [cnt, List.filter_cons, hx, List.length_cons] at * <;> simp <;> omega
+
+theorem cnt_append (e : Sendmmsg.Errno) (a b : List Sendmmsg.Sys) : cnt e (a ++ b) = cnt e a + cnt e b := by
+  simp [cnt]
+
+/-- Termination bound: the loop returns after at most `#EINTR + 4` raw syscalls, where `#EINTR` is the number
+of EINTR answers the kernel gave.  There is no bound that does not mention the kernel's EINTRs
+(`sendmmsg_can_spin`). -/
+theorem sendmmsg_calls_bound (script : List Sendmmsg.Sys) (sent : Int) (err : Sendmmsg.Errno) (n : Nat)
+    (h : Sendmmsg.sendmmsg script = .ret sent err n) : n ≤ cnt .eintr script + 4 := by
+  obtain ⟨_, pre, o, rest, h1, _, _, h4, h5, h6, _⟩ := sendmmsg_result script sent err n h
+  have := length_two_classes pre h5
+  rw [h1, cnt_append]
+  omega
+
+/-- The loop returns as soon as the kernel gives an answer that is not retried: any errno other than
+EINTR/ENOBUFS (or success) anywhere in the script, or a fourth ENOBUFS, guarantees a return. -/
+theorem sendmmsg_returns (script : List Sendmmsg.Sys)
+    (h : (∃ x ∈ script, x.errno ≠ .eintr ∧ x.errno ≠ .enobufs) ∨ 4 ≤ cnt .enobufs script) :
+    ∃ sent err n, Sendmmsg.sendmmsg script = .ret sent err n := by
+  have := loop_spec script 0 0 (by decide)
+  rw [show Sendmmsg.loop script 0 0 = Sendmmsg.sendmmsg script from rfl] at this
+  cases hr : Sendmmsg.sendmmsg script with
+  | ret s e n => exact ⟨s, e, n, rfl⟩
+  | spinning n =>
+    rw [hr] at this
+    simp only [Sendmmsg.enobufsRetries] at this
+    exfalso
+    rcases h with ⟨x, hx, h1, h2⟩ | h
+    · rcases this.2.1 x hx with h | h
+      · exact h1 h
+      · exact h2 h
+    · omega
+
+/-- The code has no fairness-free bound: against a kernel that keeps answering EINTR the loop is still
+retrying after any number `N` of syscalls (the same policy as Go's `ignoringEINTRIO`; documented, not a
+defect under the property, which quantifies over outcomes of *returned* calls). -/
+theorem sendmmsg_can_spin (N : Nat) (r : Int) :
+    Sendmmsg.sendmmsg (List.replicate N ⟨r, .eintr⟩) = .spinning N := by
+  have : ∀ e c, Sendmmsg.loop (List.replicate N ⟨r, .eintr⟩) e c = .spinning (c + N) := by
+    induction N with
+    | zero => intro e c; simp [Sendmmsg.loop]
+    | succ N ih => intro e c; simp only [List.replicate_succ, Sendmmsg.loop, if_true]; rw [ih]; congr 1; omega
+  simpa [Sendmmsg.sendmmsg] using this 0 0
+
+/-- The contract `WriteBatch` relies on (`KernOK`) is inherited from the raw syscall: if no syscall reports
+more than `n` messages, `sendmmsg` does not either. -/
+theorem sendmmsg_sent_le (script : List Sendmmsg.Sys) (n : Int) (hs : ∀ x ∈ script, x.r1 ≤ n)
+    (sent : Int) (err : Sendmmsg.Errno) (k : Nat) (h : Sendmmsg.sendmmsg script = .ret sent err k) : sent ≤ n := by
+  obtain ⟨_, pre, o, rest, h1, h2, _⟩ := sendmmsg_result script sent err k h
+  rw [← h2]; exact hs o (by rw [h1]; simp)
+
+example : Sendmmsg.sendmmsg [⟨-1, .eintr⟩, ⟨-1, .enobufs⟩, ⟨-1, .enobufs⟩, ⟨-1, .eintr⟩, ⟨-1, .enobufs⟩, ⟨-1, .enobufs⟩, ⟨5, .ok⟩]
+    = .ret (-1) .enobufs 6 := by decide
+example : Sendmmsg.sendmmsg [⟨-1, .eagain⟩, ⟨5, .ok⟩] = .ret (-1) .eagain 1 := by decide
 
 end Nebula.Props.C26
